@@ -94,6 +94,72 @@ theorem detour_model_min (N : K → K → K) (hN : IsNorm N) (a b c d mn mx : Ra
   · exact detour_clamp_min_neg N hN _ _ _ _ _ _ (by exact_mod_cast hb) (by exact_mod_cast hd) (by exact_mod_cast hS)
       hmm' _ h0' h1'
 
+theorem detour_abs (N : K → K → K) (hN : IsNorm N) (a b c d x : K) :
+    detour N a |b| c |d| x = detour N a b c d x := by
+  unfold detour
+  have h1 : N (x - a) |b| = N (x - a) b := by
+    rcases abs_choice b with h | h <;> rw [h]; exact hN.reflY _ _
+  have h2 : N (x - c) |d| = N (x - c) d := by
+    rcases abs_choice d with h | h <;> rw [h]; exact hN.reflY _ _
+  rw [h1, h2]
+
+/-! ### any path through a point is at least as long as the two straight legs -/
+
+/-- length of a polyline as measured by `N` -/
+def polyLen (N : K → K → K) : List Pt → K
+  | a :: b :: rest => D N a b + polyLen N (b :: rest)
+  | _ => 0
+
+theorem D_self (N : K → K → K) (hN : IsNorm N) (a : Pt) : D N a a = 0 := by
+  unfold D
+  have := hN.homog 0 0 0 (le_refl 0)
+  simp only [sub_self]
+  simpa using this
+
+theorem D_tri (N : K → K → K) (hN : IsNorm N) (a b c : Pt) : D N a c ≤ D N a b + D N b c := by
+  unfold D
+  have := hN.tri ((b.x : K) - (a.x : K)) ((b.y : K) - (a.y : K)) ((c.x : K) - (b.x : K)) ((c.y : K) - (b.y : K))
+  have e1 : (b.x : K) - (a.x : K) + ((c.x : K) - (b.x : K)) = (c.x : K) - (a.x : K) := by ring
+  have e2 : (b.y : K) - (a.y : K) + ((c.y : K) - (b.y : K)) = (c.y : K) - (a.y : K) := by ring
+  rw [e1, e2] at this
+  exact this
+
+/-- a polyline is at least as long as the straight segment between its ends -/
+theorem D_le_polyLen (N : K → K → K) (hN : IsNorm N) : ∀ (p : List Pt) (a b : Pt), p.head? = some a →
+    p.getLast? = some b → D N a b ≤ polyLen N p
+  | [], a, b, h, _ => by simp at h
+  | [x], a, b, h1, h2 => by
+    simp only [List.head?_cons, Option.some.injEq] at h1
+    simp only [List.getLast?_singleton, Option.some.injEq] at h2
+    subst h1; subst h2
+    rw [D_self N hN]; exact le_refl _
+  | x :: y :: rest, a, b, h1, h2 => by
+    simp only [List.head?_cons, Option.some.injEq] at h1
+    subst h1
+    have h2' : (y :: rest).getLast? = some b := by
+      rw [List.getLast?_cons_cons] at h2; exact h2
+    have ih := D_le_polyLen N hN (y :: rest) y b rfl h2'
+    unfold polyLen
+    exact le_trans (D_tri N hN x y b) (add_le_add (le_refl _) ih)
+
+theorem polyLen_append (N : K → K → K) (q : Pt) : ∀ (p1 p2 : List Pt),
+    polyLen N (p1 ++ q :: p2) = polyLen N (p1 ++ [q]) + polyLen N (q :: p2)
+  | [], p2 => by simp [polyLen]
+  | [x], p2 => by simp [polyLen]
+  | x :: y :: rest, p2 => by
+    have ih := polyLen_append N q (y :: rest) p2
+    simp only [List.cons_append] at ih ⊢
+    have e1 : polyLen N (x :: y :: (rest ++ q :: p2)) = D N x y + polyLen N (y :: (rest ++ q :: p2)) := rfl
+    have e2 : polyLen N (x :: y :: (rest ++ [q])) = D N x y + polyLen N (y :: (rest ++ [q])) := rfl
+    rw [e1, e2, ih]; ring
+
+/-- **every path from `s` to `t` through `q` is at least |s − q| + |q − t| long** -/
+theorem through_point_lower_bound (N : K → K → K) (hN : IsNorm N) (s t q : Pt) (p1 p2 : List Pt)
+    (hs : (p1 ++ [q]).head? = some s) (ht : (q :: p2).getLast? = some t) :
+    D N s q + D N q t ≤ polyLen N (p1 ++ q :: p2) := by
+  rw [polyLen_append]
+  exact add_le_add (D_le_polyLen N hN _ s q hs (by simp)) (D_le_polyLen N hN _ q t rfl ht)
+
 /-! ### the loop over the sides -/
 
 /-- all sides axis-parallel (no `rotated` branch) -/
